@@ -8,18 +8,23 @@ their quoting, numbers, string payloads, placeholders — `contentOf`) of what a
 
 The transaction-control statements, `SET ROLE`, `USE`, `DISCARD`, `DEALLOCATE`, `CLOSE` need no side
 condition (keywords come and go, the one identifier stays).  `SET … NAMES` / `SET … CHARACTERISTICS` print
-the variable in upper case although it is no keyword, and `SET NAMES` writes the charset / collation
-strings raw: `Stmt.printable` asks that the variable was written in upper case without quotes and that
-the charset / collation are unquoted words.
+the variable in upper case although it is no keyword, and `SET NAMES` writes a charset / collation name that
+is one plain non-keyword word WITHOUT quotes and any other name as a single-quoted string: `Stmt.printable`
+asks that the variable was written in upper case without quotes and that the charset / collation are either
+an unquoted plain word or a '…' / "…" string whose text is not a plain word (`rawOk`).
 -/
 set_option linter.unusedSimpArgs false
 namespace SqlVerif.Tcl
 open SqlVerif.Pratt SqlVerif.Query SqlVerif.Dml SqlVerif.Ddl SqlVerif.Gen
 
 -- ------------------------------------------------------------------ printable
-/-- a charset / collation token that `Display` writes back unchanged: an unquoted word that is no keyword -/
+/-- a charset / collation token that `Display` writes back with the same content: an unquoted word that is
+`plainName` (written as it is), or a string literal whose text is NOT `plainName` (written as a '…' string; a
+string whose text is a plain word loses its quotes, a quoted or non-ASCII word gains them) -/
 def rawOk : Tok → Bool
-  | .word _ none none => true
+  | .word v none none => plainName v
+  | .sqs s => !plainName s
+  | .dqs s => !plainName s
   | _ => false
 
 /-- what `tcl_content_preserved_partial` covers -/
@@ -287,15 +292,17 @@ theorem pc_cons_plainWordP (sp : Bool) (n : String) (l : List Piece) :
   have := pc_append [plainWordP sp n] l
   simpa [pc_plainWordP] using this
 
-theorem pc_rawPiece (sp : Bool) {t : Tok} (h : rawOk t = true) : pc [rawPiece sp t] = cont [t] := by
+theorem pc_rawPiece (sp : Bool) {t : Tok} (h : rawOk t = true) : pc [namesPartPiece sp t] = cont [t] := by
   unfold rawOk at h
   split at h
-  · rfl
+  · simp [namesPartPiece, litValue, h]; rfl
+  · simp at h; simp [namesPartPiece, litValue, h]; rfl
+  · simp at h; simp [namesPartPiece, litValue, h]; rfl
   · simp at h
 
 theorem pc_cons_rawPiece (sp : Bool) {t : Tok} (h : rawOk t = true) (l : List Piece) :
-    pc (rawPiece sp t :: l) = cont [t] ++ pc l := by
-  have := pc_append [rawPiece sp t] l
+    pc (namesPartPiece sp t :: l) = cont [t] ++ pc l := by
+  have := pc_append [namesPartPiece sp t] l
   simpa [pc_rawPiece sp h] using this
 
 theorem collatePart_content (ts co rest : List Tok) (h : collatePart ts = .ok (co, rest))
